@@ -180,9 +180,9 @@ def run(ctx):
                 if op in ("mul", "div") and (oa != ob or hb != "ctor"):
                     continue
                 jobs.append((ctx.repo, D, types, nl, oa, ob, ha, hb, op))
-    results = ctx.pmap(worker, jobs)
+    results = ctx.pairs(worker, jobs)
     bad_by_method = {}
-    for job, r in zip(jobs, results):
+    for job, r in results:
         if r.get("skip"):
             continue
         cfg = r["cfg"]
@@ -212,7 +212,7 @@ def run(ctx):
         for ta, tb in ([(0, 0), (1, 0)], [(0, 0)]), ([(0, 0)], [(0, 1)]), ([(1, 0)], [(1, 0), (0, 0)]), ([(0, 0), (1, 0)], [(0, 0), (1, 1)]):
             for op in ("add", "sub", "eq"):
                 rj.append((ctx.repo, D, tuple(ta), tuple(tb), op))
-    for job, r in zip(rj, ctx.pmap(reject_worker, rj)):
+    for job, r in ctx.pairs(reject_worker, rj):
         ev.obligation("reject", r["ok"], ("reject",) + job[1:], sample=dict(reject=[list(job[2]), list(job[3])], op=job[4]) if job[4] == "add" and len(ev.samples) < 12 else None)
         if not r["ok"]:
             q = METHOD[job[4]]
